@@ -148,6 +148,14 @@ def pop (less : α → α → Bool) (h : Heap α) : Option (Heap α × α × Lis
     some ({ a := s.1, gen := bump popBumpsGen h.gen }, it, n1 ++ s.2)
   | _, _ => none
 
+/-- `Pop` until the heap is empty (at most `fuel` times): the items in the order handed out -/
+def drain (less : α → α → Bool) : Nat → Heap α → List α
+  | 0, _ => []
+  | f + 1, h =>
+    match pop less h with
+    | none => []
+    | some (h', x, _) => x :: drain less f h'
+
 /-- `RemoveAt(i)`; `none` = index-out-of-range panic (nothing modified yet) -/
 def removeAt (less : α → α → Bool) (h : Heap α) (i : Nat) : Option (Heap α × List (Note α)) :=
   if i < h.a.length then
